@@ -230,6 +230,10 @@ def schemes(draw, *, labels="neutral", allow_full=True, max_datasets=4, features
         "clp_link_tolerance": 0.0,
         "clp_link_method": "nearest",
     }
+    if link_tolerance and draw(st.booleans()):
+        # exactly representable tolerances against grid spacings 0.5 / 1 / 1.5 / 2 (sharp decisions), all methods
+        case["clp_link_tolerance"] = draw(st.sampled_from([0.25, 0.5, 0.75, 1.0, 1.5]))
+        case["clp_link_method"] = draw(st.sampled_from(["nearest", "backward", "forward"]))
     return case
 
 
